@@ -120,6 +120,10 @@ AssembleFails(e) ==
   IN
   \* C07: every input reads the same after the call - product, warning, error or injected fault
   Chk("C07:InputsRestored", e.after = e.before)
+  \* C03: the outcome is a function of the overhang graph - the same call again names the same left-out modules (warnings
+  \* recorded the way a session sees them: one recording block around both calls, Python's default action)
+  \cup (IF e.rep.has /\ e.fault.at = 0 /\ out.kind = "product"
+        THEN Chk("C03:OutcomeRepeatable", e.rep.out.kind = "product" /\ e.rep.out.unused = out.unused /\ e.rep.out.nwarn = out.nwarn) ELSE {})
   \cup (IF e.rep.has THEN Chk("C07:RepeatGivesSame",
                                /\ e.rep.after = e.before
                                /\ (nofault => /\ e.rep.out.kind = out.kind /\ e.rep.out.exc = out.exc /\ e.rep.out.seq = out.seq
